@@ -455,7 +455,7 @@ def _reaper_records(ctx, rule="R9"):
 
     JB = "xonsh/procs/jobs.py"
     jm = ctx.repo.module(JB)
-    fn = jm.func("proc_untraced_waitpid")
+    fn = flat(ctx, jm.func("proc_untraced_waitpid"), 2, skip=("get_signal_name", "_safe_wait_for_active_job"))
     st = f"{JB}:proc_untraced_waitpid"
     procp = param_name(fn, 0, skip_self=False)
     n = 0
